@@ -320,6 +320,8 @@ def check(prop, tier, repo, seed, jobs):
     for kf in known:
         if kf.get("status") != "known":
             continue
+        if kf.get("native_check") and kf.get("native_class"):
+            continue  # reported by that native check itself (it re-finds the class on every run)
         rp = os.path.join(HERE, "replays", "%s-known-%s.json" % (prop, kf["id"]))
         with open(rp, "w") as f:
             json.dump({"property": prop, "target": kf.get("target"), "obligation": kf.get("obligation"), "inputs": kf["witness"],
